@@ -106,6 +106,25 @@ FUNCTIONS = [
     ('isotp/protocol.py', 'TransportLayer', 'stop_receiving'),
     ('isotp/protocol.py', 'TransportLayer', 'process'),
     ('isotp/protocol.py', 'TransportLayer', 'reset'),
+    ('isotp/protocol.py', 'TransportLayerLogic.Params', 'validate'),
+    ('isotp/protocol.py', 'TransportLayerLogic.Params', 'set'),
+    ('isotp/protocol.py', 'TransportLayerLogic.Params', '__init__'),
+    ('isotp/protocol.py', 'TransportLayerLogic.Params', '_fits_float'),
+    ('isotp/protocol.py', 'TransportLayerLogic.SendRequest', '__init__'),
+    ('isotp/protocol.py', 'TransportLayerLogic', 'sleep_time'),
+    ('isotp/protocol.py', 'TransportLayerLogic', 'next_cf_delay'),
+    ('isotp/protocol.py', 'TransportLayerLogic', 'is_rx_active'),
+    ('isotp/protocol.py', 'TransportLayerLogic', 'is_tx_transmitting_cf'),
+    ('isotp/protocol.py', 'RateLimiter', '__init__'),
+    ('isotp/protocol.py', 'RateLimiter', 'can_be_enabled'),
+    ('isotp/protocol.py', 'RateLimiter', 'set_bitrate'),
+    ('isotp/tools.py', 'Timer', '__init__'),
+    ('isotp/tools.py', 'Timer', 'set_timeout'),
+    ('isotp/tools.py', 'Timer', 'elapsed'),
+    ('isotp/tools.py', 'Timer', 'remaining'),
+    ('isotp/protocol.py', 'TransportLayer', '_read_relay_queue'),
+    ('isotp/protocol.py', 'TransportLayer', '__init__'),
+    ('isotp/protocol.py', 'NotifierBasedCanStack', '_rx_canbus'),
     ('isotp/protocol.py', 'NotifierBasedCanStack', 'start'),
     ('isotp/protocol.py', 'NotifierBasedCanStack', 'stop'),
     ('isotp/protocol.py', '', '_python_can_to_isotp_message'),
@@ -184,7 +203,21 @@ def _ptx_before_try(body):
     return None
 
 
+def _init_state(body):
+    """the state-initialisation statements of TransportLayerLogic.__init__: from `self.txfn = ...` to `self.actual_rxdl = ...`"""
+    def idx(name):
+        for i, x in enumerate(body):
+            if isinstance(x, ast.Assign) and len(x.targets) == 1 and dotted(x.targets[0]) == name:
+                return i
+        return None
+    i, j = idx('self.txfn'), idx('self.actual_rxdl')
+    if i is None or j is None or j < i:
+        return None
+    return body[i:j + 1]
+
+
 REGIONS = [
+    ('isotp/protocol.py', 'TransportLayerLogic', '__init__', 'state_init', _init_state),
     ('isotp/protocol.py', 'TransportLayerLogic', '_process_tx', 'prefix', _ptx_prefix),
     ('isotp/protocol.py', 'TransportLayerLogic', '_process_tx', 'standby', _ptx_branch('TRANSMIT_SF_STANDBY')),
     ('isotp/protocol.py', 'TransportLayerLogic', '_process_tx', 'transmit_cf', _ptx_branch("attr='TRANSMIT_CF'")),
@@ -354,6 +387,12 @@ def expr(n):
                 return '(.call %s %s)' % (lstr('isinstance_' + d.split('.')[-1]), args(n.args[:1]))
             raise Unsupported('isinstance with %s' % ast.dump(t))
         return '(.call %s %s)' % (lstr(f), args(n.args))
+    if isinstance(n, ast.GeneratorExp) and len(n.generators) == 1 and not n.generators[0].ifs and not n.generators[0].is_async \
+            and isinstance(n.generators[0].target, ast.Name) and isinstance(n.elt, ast.Name) and n.elt.id == n.generators[0].target.id:
+        # `(x for x in it)`: the identity generator over `it`
+        return '(.call "__iter__" %s)' % args([n.generators[0].iter])
+    if isinstance(n, ast.Dict) and not n.keys:
+        return '(.call "__emptydict__" .nil)'
     raise Unsupported(type(n).__name__)
 
 
@@ -386,6 +425,10 @@ def stmt(n):
             if len(n.targets) != 1:
                 raise Unsupported('multiple assignment')
             v = n.value
+            tg = n.targets[0]
+            if isinstance(tg, ast.Tuple) and all(isinstance(e, ast.Name) for e in tg.elts):
+                # `a, b = v`: unpacking binds both names or raises: the statement-level call "a,b:=__unpack__" on the value
+                return '(.expr (.call %s %s))' % (lstr(','.join(e.id for e in tg.elts) + ':=__unpack__'), args([v]))
             if isinstance(v, ast.Call) and dotted(v.func) == 'bytearray' and len(v.args) == 1 and isinstance(v.args[0], ast.Call) \
                     and dotted(v.args[0].func) == 'itertools.islice' and not v.keywords and not v.args[0].keywords:
                 # `x = bytearray(itertools.islice(gen, n))` pulls n values out of the generator: an effect, dumped as the statement-level call
